@@ -6,6 +6,7 @@ V('c05-no-abort-registration', ['C05'], 'tasks.py', """        self._transfer_co
             Bucket=bucket,
             Key=key,
             UploadId=upload_id,
+            **abort_extra_args,
         )
         return upload_id""", """        return upload_id""", ['C05.a'])
 V('c05-abort-after-extra-call', ['C05'], 'tasks.py', """        upload_id = response['UploadId']
@@ -19,18 +20,22 @@ V('c05-abort-conditional', ['C05'], 'tasks.py', """        self._transfer_coordi
             Bucket=bucket,
             Key=key,
             UploadId=upload_id,
-        )""", """        if extra_args:
+            **abort_extra_args,
+        )""", """        if abort_extra_args:
             self._transfer_coordinator.add_failure_cleanup(
                 client.abort_multipart_upload,
                 Bucket=bucket,
                 Key=key,
                 UploadId=upload_id,
+                **abort_extra_args,
             )""", ['C05.a'])
 V('c05-abort-wrong-id', ['C05'], 'tasks.py', """            Key=key,
             UploadId=upload_id,
+            **abort_extra_args,
         )
         return upload_id""", """            Key=key,
             UploadId=key,
+            **abort_extra_args,
         )
         return upload_id""", ['C05.a'])
 V('c05-cleanups-on-success-too', ['C05'], 'futures.py', """        if self.status != 'success':
